@@ -1,4 +1,5 @@
 import Taskpool.Inv.GoodInv
+import Taskpool.Inv.RunSortedWalk
 /-! # C14 — SimpleTaskPool.stop is LIFO and exact -/
 namespace Taskpool
 open Pool
@@ -87,5 +88,60 @@ def C14_demo : History :=
   [.mkpool none (some Pool.gatedSpec) none, .on 0 [] (.start 3), .run 0 [], .run 0 [], .run 0 [], .run 0 []]
 
 example : (((World.init 0).run C14_demo).pools.map fun p => (p.doStop 2).2) = [.ids [2, 1]] := by decide +kernel
+
+/-! ## Newest first, for every reachable state (the running registry is ascending: `Inv/RunSortedWalk.lean`) -/
+
+/-- with an ascending registry, what `stop(n)` names is strictly descending, and every running task it does not name has
+a smaller id than each task it names -/
+theorem C14_stop_newest_of_sorted (p : Pool) (n : Int) (h : p.RunSorted) :
+    (p.running.reverse.take n.toNat).Pairwise (· > ·) ∧
+    ∀ a ∈ p.running.reverse.take n.toNat, ∀ b ∈ p.running, b ∉ p.running.reverse.take n.toNat → b < a := by
+  rw [List.take_reverse]
+  have hsplit := List.take_append_drop (p.running.length - n.toNat) p.running
+  have hasc := h.asc
+  rw [← hsplit, List.pairwise_append] at hasc
+  refine ⟨?_, ?_⟩
+  · rw [List.pairwise_reverse]; exact hasc.2.1
+  · intro a ha b hb hnb
+    rw [List.mem_reverse] at ha
+    rw [List.mem_reverse] at hnb
+    rw [← hsplit, List.mem_append] at hb
+    rcases hb with hb | hb
+    · exact hasc.2.2 b hb a ha
+    · exact absurd hb hnb
+
+/-- **`stop(n)` takes the most recently started running tasks**, in every pool of every reachable world, whatever the
+history (ids are handed out in start order, C11): the ids it returns are `min(n, num_running)` many, all running,
+strictly descending (newest first), and every running task it leaves alone was started before each task it names;
+its effect is `cancel` of exactly those ids, which does not raise -/
+theorem C14_stop_takes_the_newest (base : Nat) (h : History) (i : Nat) (c : Cfg) (p : Pool)
+    (hc : ((World.init base).run h).cfgs[i]? = some c) (hp : ((World.init base).run h).pools[i]? = some p)
+    (hs : p.simple.isSome = true) (n : Int) :
+    ∃ ids, (p.doStop n).2 = .ids ids ∧ ids.length = min n.toNat p.running.length ∧
+      (∀ a ∈ ids, a ∈ p.running ∧ a < p.tasks.length) ∧ ids.Pairwise (· > ·) ∧
+      (∀ a ∈ ids, ∀ b ∈ p.running, b ∉ ids → b < a) ∧
+      (p.doStop n).1 = (p.doCancel (ids.map Int.ofNat)).1 ∧ p.firstErr (ids.map Int.ofNat) = none := by
+  have hr := World.runSorted_run base h i c p hc hp
+  have hn := C14_stop_newest_of_sorted p n hr
+  refine ⟨_, (C14_stop_shape p n hs).1, by simp [List.length_take], ?_, hn.1, hn.2, (C14_stop_shape p n hs).2,
+    C14_stop_never_raises p n⟩
+  intro a ha
+  have : a ∈ p.running := by simpa using List.mem_of_mem_take ha
+  exact ⟨this, hr.bnd a this⟩
+
+/-- `stop_all()` names every running task, newest first, in every reachable state -/
+theorem C14_stop_all_descending (base : Nat) (h : History) (i : Nat) (c : Cfg) (p : Pool)
+    (hc : ((World.init base).run h).cfgs[i]? = some c) (hp : ((World.init base).run h).pools[i]? = some p) :
+    p.running.reverse.Pairwise (· > ·) := by
+  rw [List.pairwise_reverse]; exact (World.runSorted_run base h i c p hc hp).asc
+
+/-! Non-vacuity with a gap: four started tasks, task 2 cancelled individually, `stop 2` names 3 and 1 (not 2), 0 is left. -/
+def C14_demo_gap : History :=
+  [.mkpool none (some Pool.gatedSpec) none, .on 0 [] (.start 4), .run 0 [], .run 0 [], .run 0 [], .run 0 [], .run 0 [],
+   .on 0 [] (.cancel [2]), .run 0 []]
+
+example : (((World.init 0).run C14_demo_gap).pools.map fun p => ((p.doStop 2).2, p.running)) = [(.ids [3, 1], [0, 1, 3])] := by
+  decide +kernel
+
 
 end Taskpool
